@@ -203,7 +203,25 @@ STRINGS = [
     WORD100, SENTENCE200, "café", "5 €",
     # additions: unquoted spellings that interact with the default loader's dash-continuation
     "-", "abc-", "a  b",
+    # look like a time/date-time WITH a zone offset: the PVL decoder knows no offsets, the default loader does
+    "12:00+01", "12:00-07", "2001-001T12:00-05:30", "2001-01-01T10:00-03",
 ]
+
+# long sentence of hyphenated compounds (no white space after any hyphen); padded variants put some compound
+# across the wrap column whatever the width / key length / nesting
+HYPHEN_SENTENCE = ("high-resolution multi-spectral near-infrared wide-angle push-broom line-scan cross-track "
+                   "along-track short-wave long-wave narrow-band")
+
+
+def hyphen_strings():
+    return [("p" * n + " " if n else "") + HYPHEN_SENTENCE for n in range(0, 31)]
+
+
+STRINGS += [hyphen_strings()[0], hyphen_strings()[11]]
+
+
+# zone offsets whose minutes part is not zero, both signs (-03:30, -00:30, -09:30, -05:45, +05:45, +09:30)
+OFFSETS_WITH_MINUTES = (-210, -30, -570, -345, 345, 570)
 
 
 def _times():
@@ -213,6 +231,8 @@ def _times():
             out.append(["time", 12, 30, 0, us, tz])
     out.append(["time", 1, 2, 3, 0, 0])
     out.append(["time", 1, 2, 3, 0, None])
+    for tz in OFFSETS_WITH_MINUTES:
+        out.append(["time", 12, 0, 0, 0, tz])
     return out
 
 
@@ -222,6 +242,8 @@ def _datetimes():
         for us in (0, 5000, 123456):
             out.append(["datetime", 2001, 1, 1, 12, 30, 0, us, tz])
     out.append(["datetime", 999, 12, 31, 1, 2, 3, 0, 0])
+    for tz in OFFSETS_WITH_MINUTES:
+        out.append(["datetime", 2001, 1, 1, 10, 0, 0, 0, tz])
     return out
 
 
@@ -241,6 +263,8 @@ VALUE_POOL = (
     + [["set", []], ["set", [["int", 1], ["int", 2]]], ["set", [S("a"), S("b c")]],
        ["fset", [["int", 1], ["int", 2]]], ["fset", [S("a"), S("b c")]]]
 )
+
+SCALAR_POOL = [v for v in VALUE_POOL if v[0] in SCALAR_KINDS]
 
 AGG_POOL = [
     ["group", [["x", ["int", 1]]]],
@@ -652,29 +676,51 @@ def _bad(stage, slug, what, text=None, exc=None, symptom=None):
 
 def wrap_symptom(d, folding):
     """Recognise, from the two differing strings alone, the damage done by a line break that the encoder's line
-    wrapping put inside a lexeme: (a) white space replaced by line-end + indentation, (b) under a folding loader,
-    a '-' that ended up directly before the inserted line end and was read as a continuation mark."""
+    wrapping put inside a lexeme.  Decided from the ORIGINAL string at the break position:
+      line-wrap-inside-<quotes|units>            white space of the original replaced by line end + indentation
+      line-wrap-after-dash-inside-<..>           the break fell on white space that directly FOLLOWS a '-' in the
+                                                 original ('xxxxx- xxxxxx'); a folding loader then reads '-' + line end
+                                                 as a continuation mark
+      line-wrap-inside-hyphenated-word[-units]   the break fell directly after a '-' that is followed by a non-blank
+                                                 character in the original ('high-resolution' split after 'high-')"""
     if d is None or not isinstance(d.o, str) or not isinstance(d.l, str):
         return None
     where = "units" if d.kind == "units" else "quotes"
     o, l = d.o, d.l
-    if o != l and re.sub(r"\s+", " ", o) == re.sub(r"\s+", " ", l):
+    norm = lambda x: re.sub(r"\s+", " ", x)
+    if o != l and norm(o) == norm(l):
         return f"line-wrap-inside-{where}"
-    if folding or where == "units":
-        fo = fold(o) if where == "quotes" else re.sub(r"\s+", " ", o)
-        fl = re.sub(r"\s+", " ", l)
-        if fl != fo and "-" in o:
-            # remove some of the '-<white space>' occurrences of the original
-            spots = [m.span() for m in re.finditer(r"-\s+", o)]
-            if 0 < len(spots) <= 10:
-                for mask in range(1, 2 ** len(spots)):
-                    t, shift = o, 0
-                    for i, (a, b) in enumerate(spots):
-                        if mask >> i & 1:
-                            t = t[:a - shift] + t[b - shift:]
-                            shift += b - a
-                    if (fold(t) if where == "quotes" else re.sub(r"\s+", " ", t)) == fl:
-                        return f"line-wrap-after-dash-inside-{where}"
+    hyph = "line-wrap-inside-hyphenated-word" + ("" if where == "quotes" else "-units")
+    reader_folds = folding and where == "quotes"
+    if not reader_folds:
+        # white space inserted after a '-' that had none
+        if "-" in o and norm(re.sub(r"-\s+", "-", o)) == norm(re.sub(r"-\s+", "-", l)):
+            if len(re.findall(r"-\s", l)) > len(re.findall(r"-\s", o)):
+                return hyph
+            return f"line-wrap-after-dash-inside-{where}"
+        return None
+    fl = norm(l)
+    if fl == fold(o) or "-" not in o:
+        return None
+    spots = [(m.start(), m.end(), "space") for m in re.finditer(r"-[ \t\n\r\v\f]+", o)]
+    spots += [(m.start(), m.end(), "word") for m in re.finditer(r"-(?=[^ \t\n\r\v\f])", o)]
+    spots.sort()
+    if not spots:
+        return None
+    if len(spots) <= 12:
+        combos = range(1, 2 ** len(spots))
+    else:            # many dashes: one or two removed spots
+        n = len(spots)
+        combos = [1 << i for i in range(n)] + [(1 << i) | (1 << j) for i in range(n) for j in range(i + 1, n)]
+    for mask in combos:
+        t, shift, kinds = o, 0, set()
+        for i, (a, b, kind) in enumerate(spots):
+            if mask >> i & 1:
+                t = t[:a - shift] + t[b - shift:]
+                shift += b - a
+                kinds.add(kind)
+        if fold(t) == fl:
+            return hyph if "word" in kinds else f"line-wrap-after-dash-inside-{where}"
     return None
 
 
@@ -1071,8 +1117,8 @@ def str_class(s):
         return "number-like"
     if re.fullmatch(r"\d{1,4}-\d{1,3}(-\d{1,2})?", s):
         return "date-like"
-    if re.fullmatch(r"(\d{1,4}-\d{1,3}(-\d{1,2})?T)?\d{1,2}:\d{2}(:\d{2}(\.\d+)?)?Z?([+-]\d{1,2}(:?\d{2})?)?", s):
-        return "time-like"
+    if re.fullmatch(r"(\d{1,4}-\d{1,3}(-\d{1,2})?T)?\d{1,2}:\d{1,2}(:\d{1,2}(\.\d+)?)?Z?([+-]\d{1,2}(:?\d{1,2})?)?", s):
+        return "time-with-offset-like" if re.search(r"[+-]\d{1,2}(:?\d{1,2})?$", s.split("T")[-1]) else "time-like"
     for c in s:
         if c in _RCHAR:
             return _RCHAR[c]
@@ -1283,7 +1329,7 @@ def rand_str(rng):
 def rand_scalar(rng):
     r = rng.random()
     if r < 0.35:
-        return rng.choice(VALUE_POOL[:6 + 5 + len(STRINGS) + 4 + 14 + 13])
+        return rng.choice(SCALAR_POOL)
     if r < 0.55:
         return S(rand_str(rng))
     if r < 0.65:
@@ -1450,6 +1496,29 @@ def object_sections(ctx, mode):
     s.exhaustive = thorough
     secs.append(s)
 
+    # -- S1b hyphenated compounds across the wrap column
+    hs = hyphen_strings()
+    s = Section("hyphenated-compounds", "bounded", bounded=True,
+                rule=f"a sentence of hyphenated compounds (no white space after any hyphen) padded by 0..{len(hs) - 1} leading "
+                     "characters so that some compound straddles the wrap column, as a scalar value, inside a sequence and inside "
+                     "a sequence in a group, x 4 encoders x "
+                     + ("the full option grid" if thorough else "widths 20/40/80/120 at otherwise default options plus the pairwise cover for three paddings"),
+                bounds={"paddings": len(hs), "sentence": HYPHEN_SENTENCE})
+    cases = []
+    for i, h in enumerate(hs):
+        shapes = [[["a", S(h)]], [["a", ["seq", [S(h)]]]], [["g", ["group", [["b_c", ["seq", [["int", 1], S(h)]]]]]]]]
+        for d in DIALECTS:
+            if thorough:
+                cfgs = grids[d]
+            else:
+                cfgs = [dict(DEFAULTS[d], width=w) for w in GRID[d]["width"]] + (grids[d] if i in (0, 7, 19) else [])
+            for desc in shapes:
+                for o in cfgs:
+                    cases.append((d, o, desc))
+    run_section(ctx, s, mode, cases, 100 if thorough else 25)
+    s.exhaustive = thorough
+    secs.append(s)
+
     # -- S2 keys
     s = Section("keys-x-options", "bounded", bounded=True,
                 rule="every key of the key pool (short, underscore, mixed case, 30 and 31 characters, ^pointer, namespace) as "
@@ -1508,18 +1577,25 @@ QUOTED_SPELL = ['"abc"', "'abc'", '"a b"', '" lead"', '"trail "', '"two  spaces"
                 '"dash-\n   continued"', '"it\'s"', "'say \"hi\"'", '""', "''", '"null"', '"NULL"', '"True"', '"end"',
                 '"End_Group"', '"OBJECT"', '"1e5"', '"inf"', '"2001-01-01"', '"12:00"', '"23:59:60"', '"#nc"', '"a#b"',
                 '"/*c*/"', '"x;y"', '"<u>"', '"café"', '"5 €"', '"-"', '"abc-"', '"2#1#"', '"a\\nb"', '" "',
+                '"12:00+01"', '"12:00-07"', '"2001-001T12:00-05:30"', '"2001-01-01T10:00-03"', '"12:00-03:30"',
+                '"' + HYPHEN_SENTENCE + '"', '"ppppppppppp ' + HYPHEN_SENTENCE + '"',
                 '"' + "word " * 30 + 'end"']
 KW_SPELL = ["NULL", "Null", "null", "TRUE", "True", "true", "FALSE", "False", "false"]
 DATE_SPELL = ["2001-01-01", "2001-001", "0001-01-01", "9999-12-31", "2000-02-29", "2001-366", "2001-01-01Z"]
 TIME_SPELL = ["12:00", "12:00Z", "12:00:30", "12:00:30.5", "12:00:30.123456Z", "12:00:00.123Z", "23:59:60", "23:59:60Z",
-              "23:59:60.5", "12:00+05:30", "12:00:00-07", "12:00+5", "01:02:03.5Z"]
+              "23:59:60.5", "12:00+05:30", "12:00:00-07", "12:00+5", "01:02:03.5Z",
+              "12:00-03:30", "12:00:00-09:30", "12:00-05:45", "12:00-00:30", "12:00+05:45", "12:00:30.5+09:30", "12:00-0330"]
 DT_SPELL = ["2001-01-01T12:00", "2001-001T12:00:00Z", "2001-01-01T23:59:60", "2001-01-01T23:59:60.123Z",
             "2001-01-01T12:00:00+05:30", "2001-01-01T12:00:00.1234567", "0999-12-31T01:02:03Z",
-            "2001-01-01T12:00:00.000001Z", "2001-01-01T12:00:00-0700"]
+            "2001-01-01T12:00:00.000001Z", "2001-01-01T12:00:00-0700",
+            "2001-01-01T10:00-00:30", "2001-01-01T10:00:00-03:30", "2001-001T10:00-09:30", "2001-01-01T10:00-05:45",
+            "2001-01-01T10:00+05:45", "2001-01-01T10:00:00.5+09:30"]
 UNIT_SPELL = ["<m>", "< m >", "<m/s**2>", "<KM/S>", "<degrees north>", "<%>", "<a b  c>"]
 SEQ_SPELL = ["()", "(1)", "(1, 2, 3)", "(1,2,3)", "( 1 , 2 )", "((1,2),(3))", "(((1)))", '("a b", c, 2.5)',
              "(1 <m>, 2 <m>)", "(1, 2) <m>", "(1,\n 2,\n 3)", "(NULL, TRUE)", "(12:00, 2001-01-01)", "((1, 2) <m>, 3)",
-             '("' + "long item " * 4 + '", "' + "long item " * 4 + '", "' + "long item " * 4 + '")']
+             '("' + "long item " * 4 + '", "' + "long item " * 4 + '", "' + "long item " * 4 + '")',
+             '("' + HYPHEN_SENTENCE + '", "pppp ' + HYPHEN_SENTENCE + '")',
+             "(12:00-03:30, 2001-01-01T10:00-00:30)"]
 SET_SPELL = ["{}", "{1, 2}", "{a, b}", '{"a b", c}', "{1} <m>", "{{1}, {2}}", "{1, 1}", "{NULL}", "{12:00}", '{"b", "a"}']
 SCALAR_SPELL = INT_SPELL + BASED_SPELL + FLOAT_SPELL + BARE_SPELL + QUOTED_SPELL + KW_SPELL + DATE_SPELL + TIME_SPELL + DT_SPELL
 VALUE_SPELL = (SCALAR_SPELL + SEQ_SPELL + SET_SPELL
